@@ -23,6 +23,7 @@ from jedi.inference.utils import unite
 from jedi.cache import memoize_method
 from jedi.inference.compiled.mixed import MixedName
 from jedi.inference.names import ImportName, SubModuleName
+from jedi.inference.value.function import LambdaName, FunctionNameInClass
 from jedi.inference.gradual.stub_value import StubModuleValue
 from jedi.inference.gradual.conversion import convert_names, convert_values
 from jedi.inference.base_value import ValueSet, HasNoContext
@@ -509,6 +510,11 @@ class BaseName:
             cls_or_func_node = self._name.tree_name.get_definition()
             parent = cls_or_func_node.search_ancestor('funcdef', 'classdef', 'file_input')
             context = self._get_module_context().create_value(parent).as_context()
+        elif isinstance(self._name, (LambdaName, FunctionNameInClass)):
+            # - lambda: Has no tree_name, but like functions, lambdas in
+            #   classes have the module as parent_context.
+            lambda_value, = self._name.infer()
+            context = self._get_module_context().create_context(lambda_value.tree_node)
         else:
             context = self._name.parent_context
 
